@@ -33,6 +33,7 @@ class Result:
         self.samples = []
         self.extra = {}
         self.minimums = {}      # rule -> frozen minimum instance count
+        self.deferred_broken = []  # rules that lost their anchors; the other rules still ran
         self.controls = []
 
     def oblige(self, rule, instance, ok, detail="", where=""):
@@ -51,6 +52,17 @@ class Result:
         for f in fns:
             if f is not None:
                 self.functions.add("%s (%s)" % (f.name, f.file))
+
+    def guard(self, fn, *a, **kw):
+        """Run one rule; if it loses its anchors (AnalysisBroken) remember that
+        and let the remaining rules run: a violation found by another rule is
+        reported, otherwise the check ends as analysis-broken."""
+        from .build import AnalysisBroken
+        try:
+            return fn(*a, **kw)
+        except AnalysisBroken as e:
+            self.deferred_broken.append(str(e))
+            return None
 
     def require_min(self, rule, n):
         self.minimums[rule] = n
@@ -140,7 +152,7 @@ def conclude(res, tier, t0, info):
             new.append(f)
     # frozen minimum instance counts: a rule matching fewer sites than were
     # confirmed by hand means the analysis lost its anchors
-    broken = []
+    broken = list(res.deferred_broken)
     for rule, n in res.minimums.items():
         c = res.count(rule)
         if c < n:
